@@ -138,13 +138,13 @@ pub fn cases(ctx: &Ctx) -> Vec<Case> {
         return v;
     }
     let mut rng = Rng::derive(ctx.seed, &[0xC18]);
-    let n = if ctx.quick() { 12000 } else { 400_000 };
+    let n = if ctx.quick() { 12000 } else { 1_500_000 };
     for _ in 0..n {
         v.push(Case::Pair(rng.next()));
         v.push(Case::Ed(rng.next()));
     }
     for pat in 1..=12u8 {
-        for _ in 0..(if ctx.quick() { 20 } else { 400 }) {
+        for _ in 0..(if ctx.quick() { 20 } else { 2000 }) {
             v.push(Case::PairPattern(pat, rng.next()));
         }
     }
@@ -282,11 +282,11 @@ pub fn cases(ctx: &Ctx) -> Vec<Case> {
         }
     }
     // structure-aware hostile DER: every length field is CONSISTENT, the contents are not what is expected
-    for i in 0..(if ctx.quick() { 6000 } else { 200_000 }) {
+    for i in 0..(if ctx.quick() { 6000 } else { 800_000 }) {
         v.push(Case::Hostile(structured_der(&mut rng, i)));
     }
     // nested length overflows, indefinite lengths, huge lengths, random bytes
-    let extra = if ctx.quick() { 120_000 } else { 2_000_000 };
+    let extra = if ctx.quick() { 120_000 } else { 6_000_000 };
     for i in 0..extra {
         let mut m = bases[i % 4].clone();
         for _ in 0..1 + rng.usize_below(4) {
